@@ -699,6 +699,12 @@ func checkC10(c *Ctx) {
 				if strings.HasPrefix(f, "F:") && !strings.ContainsAny(f[2:], " .(") {
 					if def := localBoolDef(save, f[2:]); def != nil && strings.Contains(canon(info, def), ".Statement.Selects)") {
 						found = true
+						// "a user selection" means Select only: every atom of the definition is about Selects
+						for _, a := range boolTable(info, def).atoms {
+							if !strings.Contains(a, ".Statement.Selects") {
+								rv.Bad(save.Name(), "'*' skipped for another reason", as.Pos(), "Save skips the '*' selection not only when the user selected columns but also under `"+a+"`: with that set (e.g. an Omit) Save behaves like Updates and drops zero-valued fields from the SET list")
+							}
+						}
 					}
 				}
 				if strings.HasPrefix(f, "T:len(") && strings.HasSuffix(f, ".Statement.Selects) == 0") {
